@@ -173,4 +173,19 @@ theorem sinv_step {c : Cfg} {rank : Nat → Nat} (hc : SlotOK c rank) {s s' : St
     simp at hs; obtain ⟨rfl, -⟩ := hs
     sinv_all hl h he t
 
+/-- The slot a push is about to fill is empty. -/
+theorem fresh_slot_empty {c : Cfg} {rank : Nat → Nat} (hc : SlotOK c rank) {s : St} {t : Tid} {v : Int} {i : Nat}
+    (hl : LInv c s) (hsi : SInv c rank s) (hpc : s.pc t = .pUnlSz v i) : s.val i = none := by
+  have hwf := hl.wfp t
+  have hwi := (hsi.loc t).wi i (by simp [hpc, incIdx])
+  have ho : s.own 0 = some t := hl.ow2 0 t (by simp [hpc, holds])
+  simp only [hpc, wf] at hwf
+  have hr1 : rank i = s.cnt := by rw [hwi.1]; exact hc.rank_slot _ hwi.2 hl.cntle
+  have := hsi.shO i t ho hwf.1 hwf.2
+  simp only [hpc, pinc, pdec] at this
+  apply hsi.te1
+  apply Classical.byContradiction; intro hne
+  have := this.1 hne
+  omega
+
 end CdsVerif.Algo.MSPQ
